@@ -233,7 +233,10 @@ def _safe(s):
 def write_evidence(R, level, explanation, extra_assumptions=()):
     # obligations that re-confirm a listed known finding are reported as findings, not counted as proof obligations
     known_keys = set(k['key'] for k, _ in R.known_hits)
-    obs = [o for o in R.obligations if o.name.split('#case-')[0] not in known_keys]
+    def _kkey(o):
+        k = o.name.split('#case-')[0]
+        return k[:-4] if k.endswith('@avr') and k not in known_keys else k
+    obs = [o for o in R.obligations if _kkey(o) not in known_keys]
     n = len(obs) + len(R.ground)
     disc = sum(1 for o in obs if o.status == 'unsat') + sum(1 for g in R.ground if g[1])
     samples = []
